@@ -353,8 +353,11 @@ class BOCD(BaseChangeDetection):
             value=value,
         )
 
-        # Update message.
-        self.log_message = new_log_joint
+        # Update message. The normalised joint (the run length distribution itself)
+        # is passed on: the evidence cancels in step 7, and an unnormalised message
+        # grows by the log-evidence of every observation until float64 can no longer
+        # resolve the hypotheses (a single far outlier was enough).
+        self.log_message = self.log_r[self.num_instances, : self.num_instances + 1]
 
         # 9. Perform prediction.
         probs = np.exp(self.log_r[self.num_instances, : self.num_instances + 1])
